@@ -3,6 +3,7 @@ package rt
 import (
 	"context"
 	"fmt"
+	"runtime"
 	"time"
 
 	"go.uber.org/cff"
@@ -86,6 +87,10 @@ func (s *schedEm) EmitScheduler(st cff.SchedulerState) {
 	}
 	stamp()
 	x.schedStates.Add(1)
+	if x.Sc.EmitGoexit {
+		x.EmitGoexits.Add(1)
+		runtime.Goexit()
+	}
 	exec := st.Pending - st.Ready - st.Waiting
 	bad := ""
 	switch {
